@@ -11,7 +11,7 @@ LEVEL = "model_checking"
 FUNCTIONS = [("pandapower.shortcircuit.currents", "_calc_ikss"), ("pandapower.shortcircuit.currents", "_calc_ip"),
              ("pandapower.shortcircuit.kappa", "_kappa"), ("pandapower.shortcircuit.kappa", "_kappa_method_b"),
              ("pandapower.shortcircuit.kappa", "_add_kappa_to_ppc"), ("pandapower.build_bus", "_add_ext_grid_sc_impedance")]
-STUBS = ["the Thevenin impedance of the network (Zbus = inverse of Ybus: LAPACK/SuperLU) is a symbolic input r + jx with r >= 0, x > 0",
+STUBS = ["kappa method C instance: numpy inv / scipy factorized of the 1x1 equivalent-frequency Ybus -> their contract (exact inverse)", "the Thevenin impedance of the network (Zbus = inverse of Ybus: LAPACK/SuperLU) is a symbolic input r + jx with r >= 0, x > 0",
          "_current_source_current -> no current sources (the property's 'without current-source contributions')",
          "exp(t) -> uninterpreted with 0 < exp(t) <= 1 for t <= 0 and exp(0) = 1"]
 ASSUMPTIONS = ["one faulted bus; c in [0.9, 1.1]; Un, base MVA, R/X symbolic; rx = 2k/(1-k^2) rationalising parametrisation for the ext_grid"]
@@ -117,6 +117,55 @@ def make_kappa(method):
     return fn
 
 
+def make_kappa_c():
+    """kappa method C on a single ext_grid-fed bus: the equivalent-frequency network must be the one that is inverted / factorised,
+    whatever inverse_y says"""
+    def fn(ctx):
+        ka = ctx.load("pandapower.shortcircuit.kappa")
+        imp = ctx.load("pandapower.shortcircuit.impedance")
+        from pandapower.pypower.idx_bus_sc import R_EQUIV, X_EQUIV, KAPPA, GS_P, BS_P, bus_cols_sc
+        from pandapower.pypower.idx_bus import bus_cols, BASE_KV, GS, BS, BUS_I
+        from pandapower.pypower.idx_brch import branch_cols
+        _exp_hook(ctx)
+        r, x = ctx.var("r_grid", 0.001, 1.), ctx.var("x_grid", 0.01, 1.)
+        base = 10.0
+        kappas = []
+        for inverse_y in (True, False):
+            bus = ctx.obj(np.zeros((1, bus_cols + bus_cols_sc)))
+            bus[0, BASE_KV] = 20.0
+            bus[0, GS] = r / (r * r + x * x) * base          # the ext_grid's short-circuit admittance as _add_ext_grid_sc_impedance stores it
+            bus[0, BS] = -x / (r * r + x * x) * base
+            bus[0, GS_P], bus[0, BS_P] = float("nan"), float("nan")
+            ppc = {"bus": bus, "branch": np.zeros((0, branch_cols)), "baseMVA": base, "internal": {}}
+            net = _N()
+            net["f_hz"] = 50
+            net["_options"] = {"inverse_y": inverse_y, "r_fault_ohm": 0., "x_fault_ohm": 0.}
+            stubs = {}
+            if ctx.symbolic:
+                from symx.shim import DMat
+
+                def inv1(A):
+                    A = A.A if isinstance(A, DMat) else np.asarray(A)
+                    o = ctx.obj(np.zeros((1, 1), dtype=complex))
+                    o[0, 0] = 1 / A[0, 0]
+                    return o
+
+                def fact1(A):
+                    A = A.A if isinstance(A, DMat) else np.asarray(A)
+                    return lambda rhs: ctx.array([rhs[0] / A[0, 0]])
+                stubs_imp, stubs_ka = dict(inv=inv1), dict(factorized=fact1)
+            else:
+                stubs_imp, stubs_ka = {}, {}
+            with patched(imp, **stubs_imp), patched(ka, **stubs_ka):
+                imp._calc_ybus(ppc)          # as _calc_sc does for the 50 Hz network before kappa is computed
+                kappas.append(ka._kappa_method_c(net, ppc)[0])
+        ref = ka._kappa(r / x)       # one R-X source: R/X at the equivalent frequency times fc/f is the 50 Hz R/X
+        ctx.eq("kappa_c_with_inverse_equals_reference", kappas[0], ref)
+        ctx.eq("kappa_c_with_factorisation_equals_reference", kappas[1], ref)
+        ctx.eq("kappa_c_independent_of_inverse_y", kappas[0], kappas[1])
+    return fn
+
+
 def make_ext_grid():
     def fn(ctx):
         bbus = ctx.load("pandapower.build_bus")
@@ -151,6 +200,7 @@ def instances(tier):
             Inst("kappa_radial", make_kappa("radial"), nvars=12, samples=3, meta=dict(part="kappa", method="radial")),
             Inst("kappa_method_b", make_kappa("B"), nvars=12, samples=3, meta=dict(part="kappa", method="B meshed")),
             Inst("kappa_method_b_lv", make_kappa("B_lv"), nvars=12, samples=3, meta=dict(part="kappa", method="B meshed, low voltage")),
+            Inst("kappa_method_c_single_source", make_kappa_c(), nvars=16, samples=3, meta=dict(part="kappa", method="C, inverse_y True/False")),
             Inst("ext_grid_impedance", make_ext_grid(), nvars=16, samples=3, meta=dict(part="ext_grid"))]
 
 
